@@ -172,6 +172,8 @@ def abs_val(dt, v):
         return ('none',)
     if issubclass(dt, C.Array):
         if isinstance(v, C.Array):
+            if not (isinstance(v.value, list) and len(v.value) >= 1 and isinstance(v.value[0], int)):
+                return ('x',)           # not an ArrayOf state at all: no model value corresponds
             return ('arr', v.value[0], [abs_elem(dt.subtype, x) for x in v.value[1:]])
         if isinstance(v, list):
             return ('pylist', [abs_elem(dt.subtype, x) for x in v])
@@ -488,14 +490,22 @@ def pick_property(rng, obj, bench, want_value=None):
     return pid, obj._properties[pid]
 
 
+def arr_len(v):
+    C = B()['C']
+    try:
+        return int(v.value[0]) if isinstance(v, C.Array) else 0
+    except Exception:
+        return 0
+
+
 def pick_index(rng, obj, prop):
     C = B()['C']
     if prop is None or not issubclass(prop.datatype, C.Array):
         return None if rng.random() < 0.85 else rng.choice([0, 1, 2])
     v = obj._values.get(prop.identifier)
-    n = v.value[0] if isinstance(v, C.Array) else 0
+    n = arr_len(v)
     r = rng.random()
-    if r < 0.3: return None
+    if r < 0.25: return None
     if r < 0.45: return 0
     if r < 0.8 and n >= 1: return rng.randint(1, n)
     if r < 0.9: return n + 1
@@ -525,14 +535,14 @@ def gen_write_value(rng, bench, obj, prop, idx):
     dt = prop.datatype
     isarr = issubclass(dt, C.Array)
     cur = obj._values.get(prop.identifier)
-    n = cur.value[0] if isinstance(cur, C.Array) else 0
+    n = arr_len(cur)
     right = rng.random() < 0.62
     if isarr and idx == 0:
         if right:
             if dt.fixed_length is not None:
-                m = dt.fixed_length if rng.random() < 0.5 else rng.choice([0, n + 1, max(0, n - 1)])
+                m = dt.fixed_length if rng.random() < 0.4 else rng.choice([0, n + 1, n + 1, n + 2, max(0, n - 1)])
             else:
-                m = rng.choice([0, n, n + 1, n + 3, max(0, n - 1), 12])
+                m = rng.choice([0, n, n + 1, n + 2, max(0, n - 1), max(0, n - 1), max(0, n - 2), 9])
             return make_any([P.Unsigned(m)]), 'length', False
         k = rng.choice([0, 1, 3, 4, 7, 9])
         return make_any([atom_samples()[k](rng)]), 'length-wrong-kind', True
@@ -778,14 +788,49 @@ def bench():
     return _BENCH[0]
 
 
-def history_case(rng, nops=None):
+def bitstring_array_scenario(bn):
+    """a bitstringValue object whose alarmValues holds two bit strings (elements that are python lists)"""
+    bn.clear()
+    cls, M = classes()['bitstringValue']
+    dt = M._properties['alarmValues'].datatype
+    bn.add(M(objectIdentifier=('bitstringValue', 10), objectName='bitstringValue-10', alarmValues=dt([[1, 0, 1], [0, 0]]),
+             presentValue=[1, 1, 0]))
+
+
+def bitstring_array_ops(bn):
+    A = B()['A']
+    oid = ('bitstringValue', 10)
+    for idx in (None, 0, 1, 2, 3):
+        req = A.ReadPropertyRequest(objectIdentifier=oid, propertyIdentifier='alarmValues')
+        if idx is not None:
+            req.propertyArrayIndex = idx
+        yield req, '(ORead %d %d %s)' % (oid_num(oid), pid_num('alarmValues'), q_opt(idx)), {'op': 'read', 'oid': list(oid), 'pid': 'alarmValues', 'idx': idx}
+    specs = [(oid, [('alarmValues', 2), ('alarmValues', None), ('presentValue', None), ('alarmValues', 5)])]
+    req = A.ReadPropertyMultipleRequest(listOfReadAccessSpecs=[
+        A.ReadAccessSpecification(objectIdentifier=o, listOfPropertyReferences=[
+            A.PropertyReference(propertyIdentifier=p, propertyArrayIndex=i) for p, i in refs]) for o, refs in specs])
+    yield req, '(ORpm %s)' % q_refs(specs), {'op': 'rpm', 'specs': [[list(o), [list(x) for x in refs]] for o, refs in specs]}
+
+
+def history_case(rng, nops=None, scenario=None):
     bn = bench()
-    new_history(rng, bn)
+    if scenario is None:
+        new_history(rng, bn)
+        script = None
+    else:
+        scenario[0](bn)
+        script = scenario[1](bn)
     qdev = bn.q_device()
     qops, expected, descs = [], [], []
     acks = refusals = 0
     for _ in range(nops or rng.randint(10, 14)):
-        req, q, d = gen_op(rng, bn)
+        if script is not None:
+            try:
+                req, q, d = next(script)
+            except StopIteration:
+                break
+        else:
+            req, q, d = gen_op(rng, bn)
         io, errs = bn.exchange(req)
         rep = c_reply(bn, io)
         acks += (rep == [0])
@@ -805,7 +850,8 @@ def history_case(rng, nops=None):
 def cases(rng, tier):
     B(); classes()
     n = 2400 if tier == 'thorough' else 400
-    out = [history_case(rng) for _ in range(n)]
+    out = [history_case(rng, nops=20, scenario=(bitstring_array_scenario, bitstring_array_ops))]
+    out += [history_case(rng) for _ in range(n - 1)]
     bench().clear()
     return out
 
@@ -1144,6 +1190,26 @@ def canonical_known(failures, stats):
     bn.clear()
 
 
+def bitstring_array_direct(failures, stats):
+    """arrays whose elements are python lists (bit strings): every index class"""
+    bn = bench()
+    bitstring_array_scenario(bn)
+    for req, q, d in bitstring_array_ops(bn):
+        before = snap(bn)
+        io, _ = bn.exchange(req)
+        rep = c_reply(bn, io)
+        d = dict(d, reply=rep[:40])
+        stats['evaluations'] += 1
+
+        def fail(kind, d=d, **kw):
+            failures.append(dict({'kind': kind, 'scenario': 'bitstring-array', 'op': d}, **kw))
+        if d['op'] == 'read':
+            check_read_reply(bn, d, rep, before, fail)
+        else:
+            check_rpm(bn, d, rep, fail)
+    bn.clear()
+
+
 def direct(rng, tier, focus=()):
     import collections
     B(); classes()
@@ -1155,6 +1221,7 @@ def direct(rng, tier, focus=()):
         run_direct_history(hs, failures, stats)
         stats['histories'] += 1
     canonical_known(failures, stats)
+    bitstring_array_direct(failures, stats)
     stats['replies'] = dict(stats['replies'])
     stats['distinct_nontrivial'] = stats['acked']
     stats['samples'] = [{'direct': 'history', 'seed': seeds[0]}]
